@@ -10,7 +10,13 @@ impl ItemConfig {
         ensures r is Ok ==> final(s).config == Some(*v), r is Err ==> final(s).config == old(s).config, final(s).pair_info == old(s).pair_info, final(s).commission == old(s).commission { unimplemented!() }
 }
 impl ItemPairInfo {
-    #[verifier::external_body] pub fn load(&self, s: &Storage) -> (r: StdResult<PairInfoRaw>) ensures r is Ok ==> s.pair_info is Some && s.pair_info->Some_0 == r->Ok_0 { unimplemented!() }
+    #[verifier::external_body] pub fn load(&self, s: &Storage) -> (r: StdResult<PairInfoRaw>)
+//%if A
+        requires s.pair_info is Some ensures r is Ok, s.pair_info->Some_0 == r->Ok_0
+//%else
+        ensures r is Ok ==> s.pair_info is Some && s.pair_info->Some_0 == r->Ok_0
+//%endif
+    { unimplemented!() }
     #[verifier::external_body] pub fn save(&self, s: &mut Storage, v: &PairInfoRaw) -> (r: StdResult<()>)
         ensures r is Ok ==> final(s).pair_info == Some(*v), r is Err ==> final(s).pair_info == old(s).pair_info, final(s).config == old(s).config, final(s).commission == old(s).commission { unimplemented!() }
 }
